@@ -138,6 +138,72 @@ def shape_of_unsound(d, cred, retbl):
     return "format-not-satisfied"
 
 
+def ref_candidates(pd, creds, retbl):
+    """first credential of the list satisfying each descriptor (reference); None when there is none"""
+    return [next((c for c in creds if satisfies(pd, d, c, retbl)), None) for d in pd["descs"]]
+
+
+def navigate_path(p, root):
+    """evaluate a path of the subset on a root; returns (value, at) with `at` the keys/indexes walked, or None"""
+    steps, wild = parse_path(p)
+    if wild:
+        return None
+    v, at = root, []
+    for st in steps:
+        if isinstance(v, dict) and str(st) in v:
+            v = v[str(st)]; at.append(str(st))
+        elif isinstance(v, list) and isinstance(st, int) and st < len(v):
+            v = v[st]; at.append(st)
+        else:
+            return None
+    return v, at
+
+
+def ref_resolve(op, m):
+    """reference Resolve of one descriptor-map entry (with path_nested) using the go-did decode table of the op;
+    returns the name of the credential it lands on, or None when it does not resolve to a credential"""
+    root_i, root = 0, op["env"]
+    level = m
+    while True:
+        try:
+            r = navigate_path(level["path"], root)
+        except Undecided:
+            return None
+        if r is None:
+            return None
+        v, at = r
+        e = next((e for e in op.get("decode", []) if e["root"] == root_i and e["at"] == at and e["fmt"] == level["fmt"]), None)
+        if e is None:
+            return None
+        if isinstance(v, str) != level["fmt"].startswith("jwt_") or not isinstance(v, (str, dict)):
+            return None
+        if "nested" not in level or level["nested"] is None:
+            return e["cred"] if e["kind"] == "vc" else None
+        mi = e.get("map", 0)
+        if not mi:
+            return None
+        root_i, root, level = mi, op["maps"][mi], level["nested"]
+
+
+def field_value_ok(fld, tree, retbl, got):
+    """is `got` (JSON text) an acceptable value for a named field: the value at one of its paths, the regexp
+    whole-match / single capture on the string at a path, or null for an absent optional field"""
+    ok = set()
+    for p in fld["paths"]:
+        v = get_path(p, tree)
+        if v is None:
+            continue
+        ok.add(json.dumps(v, sort_keys=True, separators=(",", ":")))
+        flt = fld.get("filter", {})
+        if isinstance(v, str) and "pattern" in flt:
+            k = retbl.get((flt["pattern"], v))
+            if k and k[0] in ("whole", "cap"):
+                ok.add(json.dumps(k[1]))
+    if fld.get("optional"):
+        ok.add("null")
+    return got in ok
+
+
 def sr_pick_without_max(sr):
     if sr["rule"] == "pick" and "count" not in sr and "max" not in sr:
         return True
@@ -189,22 +255,30 @@ def run(ctx):
         stats = {}
 
     # ---- direct property oracle on the implementation's own outputs
-    seen_sig = set()
+    seen_sig = {}
     counts = Counter()
     distinct = set()
     case = None
     case_line = None
     retbl = {}
     oracle_bad = 0
+    last_build = None
 
-    def report(sig, what, i):
+    def report(sig, what, i, with_build=False):
         nonlocal oracle_bad
-        oracle_bad += 1
         if sig in seen_sig:
+            if seen_sig[sig]:
+                oracle_bad += 1
+            else:
+                counts["known-finding-hit"] += 1
             return
-        seen_sig.add(sig)
         name = re.sub(r"[^A-Za-z0-9_.-]+", "-", sig.split(":", 1)[1]) + ".jsonl"
-        ctx.violation(sig, what + f" (op line {i})", name, case_line + "\n" + ops_raw[i] + "\n")
+        pre = (json.dumps(last_build[0]) + "\n") if with_build and last_build else ""
+        seen_sig[sig] = ctx.violation(sig, what + f" (op line {i})", name, case_line + "\n" + pre + ops_raw[i] + "\n")
+        if seen_sig[sig]:
+            oracle_bad += 1
+        else:
+            counts["known-finding-hit"] += 1
 
     for i, line in enumerate(impl):
         if i >= len(ops_raw) or not ops_raw[i]:
@@ -213,6 +287,7 @@ def run(ctx):
         kind = op.get("op")
         if kind == "case":
             case, case_line = op, ops_raw[i]
+            last_build = None
             retbl = {(p, s): (k, v) for p, s, k, v in op.get("re", [])}
             continue
         if kind == "reject" or case is None:
@@ -274,6 +349,103 @@ def run(ctx):
                     if all(any(satisfies(pd, d, c, retbl) for c in wallet) for d in pd["descs"]):
                         report("C12:match-incomplete", "wallet reports missing credentials although every descriptor has a satisfying credential", i)
                     counts["complete-checked"] += 1
+                except Undecided:
+                    counts["oracle-undecided"] += 1
+        elif kind == "build":
+            last_build = (op, line)
+        elif kind == "validate" and not op.get("envErr"):
+            counts["validate:" + op.get("mut", "")] += 1
+            unique_ids = len({d["id"] for d in pd["descs"]}) == len(pd["descs"])
+            pres = []
+            for row in op.get("pres", []):
+                pres.append([dict(creds[x["ref"]], raw=x["raw"]) if "ref" in x else x["full"] for x in row])
+            mok = re.match(r"validate ok \{(.*)\}$", line)
+            if mok and not unique_ids:
+                counts["validate:duplicate-descriptor-ids-outside-domain"] += 1
+            elif mok:
+                accepted = dict(x.split("=", 1) for x in mok.group(1).split(",") if x)
+                counts["validate-accepted"] += 1
+                if op.get("sub"):
+                    distinct.add((case["n"], "v", json.dumps(op["sub"], sort_keys=True)))
+                # forged_mapping_rejected: every entry resolves (inside the envelope) to the credential the verifier's own matching selected
+                ids = [m["id"] for m in op.get("sub", [])]
+                for m in op.get("sub", []):
+                    landed = ref_resolve(op, m)
+                    if m["id"] not in accepted:
+                        report("C12:accepted-unknown-descriptor", f"accepted submission maps unknown/unselected descriptor {m['id']}", i)
+                    elif landed is None or landed.rstrip("'") != accepted[m["id"]].rstrip("'"):
+                        if ids.count(m["id"]) > 1:
+                            report("C12:accepted-duplicate-descriptor-entry:shadowed", f"accepted although an entry for {m['id']} resolves to {landed}, not {accepted[m['id']]} (a later entry with the same id overwrote it)", i)
+                        else:
+                            report("C12:accepted-forged-mapping", f"accepted although the entry for {m['id']} resolves to {landed}, not {accepted[m['id']]}", i)
+                if set(ids) != set(accepted):
+                    report("C12:accepted-incomplete-mapping", f"accepted although descriptors {sorted(set(accepted) - set(ids))} are not mapped", i)
+                elif len(ids) != len(accepted) and unique_ids:
+                    report("C12:accepted-duplicate-descriptor-entry:surplus", "accepted although the descriptor map has more than one entry for an input descriptor", i)
+                # the accepted mapping is what reference matching selects on the first presentation that matches (basic mode)
+                if not pd["srs"] and unique_ids and len(pres) == 1:
+                    try:
+                        cand = ref_candidates(pd, pres[0], retbl)
+                        want = {d["id"]: (c["name"] if c else None) for d, c in zip(pd["descs"], cand)}
+                        if all(want.values()) and want != accepted:
+                            report("C12:accepted-mapping-differs-from-reference-match", f"verifier returned {accepted}, reference matching selects {want}", i)
+                        counts["accepted-vs-reference-checked"] += 1
+                    except Undecided:
+                        counts["oracle-undecided"] += 1
+            elif op.get("mut") == "orig" and line.startswith("validate err:") and last_build and last_build[1].startswith("build ok"):
+                # wallet_verifier_agree: the verifier must accept what the wallet built from the same definition
+                cls = line.split("err:", 1)[1]
+                mb = re.match(r"build ok vcs=\[(.*?)\] map=", last_build[1])
+                sel = [creds[x] for x in mb.group(1).split(",") if x and x in creds]
+                wallet = [case["creds"][k] for k in last_build[0]["wallets"][-1]] if last_build[0].get("wallets") else []
+                if cls == "signer":
+                    counts["agree:signer-broken-on-purpose"] += 1
+                elif any(c["fmt"] == "" for c in sel):
+                    counts["agree:holder-credential-outside-domain"] += 1
+                elif not unique_ids:
+                    counts["agree:duplicate-descriptor-ids-outside-domain"] += 1
+                else:
+                    try:
+                        amb = False
+                        if len(last_build[0].get("wallets", [])) == 1:
+                            cw = [c["name"] if c else None for c in ref_candidates(pd, wallet, retbl)]
+                            cs = [c["name"] if c else None for c in ref_candidates(pd, sel, retbl)]
+                            amb = cw != cs
+                        else:
+                            amb = None
+                        if amb:
+                            report("C12:wallet-verifier-disagree:credential-matches-several-descriptors",
+                                   f"verifier rejects ({cls}) the wallet's own submission: re-matching the presented credentials selects differently", i, True)
+                        elif amb is None:
+                            counts["agree:multi-wallet-not-judged"] += 1
+                        else:
+                            report("C12:wallet-verifier-disagree:" + cls, f"verifier rejects ({cls}) the wallet's own submission", i, True)
+                    except Undecided:
+                        counts["oracle-undecided"] += 1
+            if op.get("mut") == "orig" and mok:
+                counts["agree:accepted"] += 1
+        elif kind == "fields":
+            mf = re.match(r"fields ok \{(.*)\}$", line)
+            if mf and len({d["id"] for d in pd["descs"]}) == len(pd["descs"]):
+                got = {}
+                for part in re.split(r",(?=f\d+=)", mf.group(1)):
+                    if part:
+                        k, v = part.split("=", 1)
+                        got[k] = v
+                cm = {e[0]: case["creds"][e[1]] for e in op.get("credMap", [])}
+                try:
+                    for k, v in got.items():
+                        okv = False
+                        for d in pd["descs"]:
+                            if d["id"] in cm:
+                                for f in d.get("fields", []):
+                                    if f.get("id") == k and field_value_ok(f, cm[d["id"]]["tree"], retbl, json.dumps(json.loads(v), sort_keys=True, separators=(",", ":"))):
+                                        okv = True
+                        if not okv:
+                            report("C12:field-value-not-faithful", f"resolved field {k}={v} is not the value at the field's paths in the mapped credential", i)
+                    counts["fields-checked"] += 1
+                    if got:
+                        distinct.add((case["n"], "f", mf.group(1)))
                 except Undecided:
                     counts["oracle-undecided"] += 1
     ctx.oblige("oracle:reference-matcher(impl)", oracle_bad == 0, f"{oracle_bad} disagreements with the reference matcher / panics")
